@@ -1186,3 +1186,330 @@ def closure_is_threshold(prog, cb, is_elem, is_bound):
         if vs != [False, True, True]:
             bad.append("keeps when %s (below / at / above the bound: %s)" % (mir.show(K.peel(ret))[:70], vs))
     return bad
+
+
+# ------------------------------------------------------------------------------------ initial values (constructors)
+_CTOR_RE = re.compile(r"^(new|default|genesis|new_\w+|with_\w+)$")
+_EMPTY_OWNERS = ("alloc::vec::Vec", "alloc::collections::", "std::collections::", "smallvec::SmallVec", "alloc::string::String", "hashbrown::")
+
+
+_ZEROISH = (["empty"], ["none"], ["const", 0], ["type-default"])
+_DERIVED = None
+
+
+def _derives_default(adt):
+    global _DERIVED
+    if _DERIVED is None:
+        try:
+            ki = json.load(open(os.path.join(os.path.dirname(os.path.abspath(__file__)), "known_items.json")))
+            _DERIVED = set((a, t) for a, t in ki.get("derived", []))
+        except Exception:
+            _DERIVED = set()
+    short = adt.replace("alpenglow::", "")
+    return any(t.endswith("Default") and (a == adt or a == short or a.replace("alpenglow::", "") == short) for a, t in _DERIVED)
+
+
+def vclass(prog, b, t, depth=0):
+    """value class of a term used as an initial value: a parameter (by position), a constant, None / Some, an empty collection,
+    the type's default, a unit variant - or ['complex'] (not compared)."""
+    t = K.peel(t)
+    if not isinstance(t, tuple) or not t or depth > 4:
+        return ["complex"]
+    k = t[0]
+    if k == "param":
+        return ["param", t[1]]
+    if k == "const":
+        return ["const", t[2]] if isinstance(t[2], int) else ["complex"]
+    if k == "cref":
+        return ["cref", "::".join(t[1].split("::")[-2:])]
+    if k == "agg":
+        adt, var, fields = t[1], t[2], t[3]
+        if adt.endswith("option::Option"):
+            return ["none"] if var == "None" else ["some", vclass(prog, b, fields[0][1], depth + 1)]
+        if not fields:
+            return ["variant", adt.replace("alpenglow::", ""), var]
+        if len(fields) == 1:
+            inner = vclass(prog, b, fields[0][1], depth + 1)
+            if inner[0] == "const":
+                return ["newtype", adt.replace("alpenglow::", ""), inner[1]]
+        if adt.startswith("alpenglow::") and fields and all(vclass(prog, b, fv, depth + 1) in _ZEROISH for _fn, fv in fields) and _derives_default(adt):
+            # every field spelled out with the value the derived Default gives it
+            return ["type-default"]
+        return ["complex"]
+    if k == "tuple" or k == "array":
+        return [k, [vclass(prog, b, x, depth + 1) for x in t[1]]]
+    if k == "field" and isinstance(t[1], tuple) and t[1] and t[1][0] == "call" and t[1][1].rsplit("::", 1)[-1] == "default" and not t[1][2]:
+        return ["type-default"]
+    if k == "call":
+        name, args = t[1], t[2]
+        last = name.rsplit("::", 1)[-1]
+        if last in ("new", "default", "with_capacity", "with_capacity_and_hasher", "with_hasher", "new_in") and name.startswith(_EMPTY_OWNERS) and all(
+                vclass(prog, b, a, depth + 1)[0] in ("const", "complex", "param") for a in args):
+            return ["empty"]
+        if last == "default" and not args:
+            return ["type-default"]
+        if name.endswith("time::Instant::now") or name.endswith("Instant::now"):
+            return ["now"]
+        cb = prog.bodies.get(name)
+        if cb is not None and not args and not cb.is_closure:
+            # a crate function without arguments (Slot::genesis(), ..): the class of what it returns
+            rts = set()
+            for rb in cb.return_blocks():
+                rts.add(json.dumps(vclass(prog, cb, cb.local_term(0), depth + 1)))
+            if len(rts) == 1:
+                return json.loads(rts.pop())
+        if cb is not None and len(args) == 1 and last == "new" and not cb.is_closure:
+            inner = vclass(prog, b, args[0], depth + 1)
+            rt = cb.local_term(0)
+            if inner[0] == "const" and isinstance(rt, tuple) and rt[0] == "agg" and len(rt[3]) == 1 and K.peel(rt[3][0][1])[:2] == ("param", 1):
+                return ["newtype", rt[1].replace("alpenglow::", ""), inner[1]]
+        return ["complex"]
+    return ["complex"]
+
+
+def ctor_table(prog):
+    """{root fn: {adt: [ {field: class} per aggregate in source order ]}} for constructor-like functions of crate structs"""
+    out = {}
+    for d, b in prog.bodies.items():
+        if b.generated or not d.startswith("alpenglow::"):
+            continue
+        root = d.split("::{closure")[0]
+        last = mir.strip_generics(root).rsplit("::", 1)[-1]
+        if not _CTOR_RE.match(last) or "::tests::" in d or "test" in last:
+            continue
+        for (bb, rv, sp, dst) in b.aggregates():
+            if rv.get("ak") != "adt" or rv.get("is_enum") or not rv["adt"].startswith("alpenglow::"):
+                continue
+            fl = {}
+            for f, op in zip(rv["fields"], rv["ops"]):
+                fl[f] = vclass(prog, b, b.operand_term(op))
+            out.setdefault(K.fshort(root), {}).setdefault(rv["adt"].replace("alpenglow::", ""), []).append({"fields": fl, "span": sp})
+    return out
+
+
+_STD_DEFAULTABLE = re.compile(r"^(alloc::|std::collections|core::option::Option|smallvec::|bool$|[ui](8|16|32|64|128|size)$|hashbrown::)")
+
+
+def _class_matches(want, got, fty=""):
+    if want[0] == "complex":
+        return True
+    if want in _ZEROISH and got in _ZEROISH and (want == got or _STD_DEFAULTABLE.match(fty or "")):
+        # Vec::new() / None / 0 / false and Default::default() of a std type are the same value
+        if want == got or (want[0] in ("empty", "type-default") and got[0] in ("empty", "type-default")) or _STD_DEFAULTABLE.match(fty or ""):
+            return True
+    if want[0] != got[0] or len(want) != len(got):
+        return False
+    for w, g in zip(want[1:], got[1:]):
+        if isinstance(w, list) and w and isinstance(w[0], str):
+            if not (isinstance(g, list) and _class_matches(w, g)):
+                return False
+        elif isinstance(w, list):
+            if not (isinstance(g, list) and len(w) == len(g) and all(_class_matches(a, c) for a, c in zip(w, g))):
+                return False
+        elif w != g:
+            return False
+    return True
+
+
+def ob_initial_values(run, oid, owners, why, floor=1, skip=()):
+    """the values protocol state starts from (rules/ctor_table.json, recorded on the reviewed tree): a field that a constructor
+    fills from a parameter, a constant, None, an empty collection, the type's default or a unit variant is still filled with the
+    same value (class); computed initial values are not compared. A field that is new is left to the new-field rule."""
+    prog = run.program("lib")
+    tab = json.load(open(os.path.join(os.path.dirname(os.path.abspath(__file__)), "ctor_table.json")))
+    o = run.ob(oid, "protocol state starts from the reviewed initial values (parameters by position, constants, None, empty, default)", why, floor=floor)
+    cur = ctor_table(prog)
+    for ow in owners:
+        sites = [(fn, ags) for fn, per in tab.items() for adt, ags in per.items() if adt == ow]
+        if not sites:
+            o.missing("constructor of " + ow)
+            continue
+        ftys = {}
+        if "alpenglow::" + ow in prog.adts:
+            ftys = {f["name"]: f.get("ty", "") for f in prog.adts["alpenglow::" + ow]["variants"][0]["fields"]}
+        for fn, ags in sites:
+            got = cur.get(fn, {}).get(ow)
+            if got is None:
+                # the constructor is gone (renames are mapped back before): is the struct still built somewhere constructor-like?
+                alt = [(f2, per[ow]) for f2, per in cur.items() if ow in per and f2 not in tab]
+                if len(alt) == 1 and len(alt[0][1]) == len(ags):
+                    got = alt[0][1]
+                else:
+                    o.fail("%s|%s|anchor-missing" % (ow.rsplit("::", 1)[-1], fn), "reviewed constructor site of %s in %s not found (rule cannot be evaluated; failing closed)" % (ow, fn))
+                    continue
+            if len(got) < len(ags):
+                o.fail("%s|%s|anchor-missing" % (ow.rsplit("::", 1)[-1], fn), "fewer construction sites of %s in %s than reviewed" % (ow, fn))
+                continue
+            # pair aggregates in source order; extra (new) aggregates must match one of the reviewed ones field by field
+            for i, g in enumerate(got):
+                cands = [ags[i]] if i < len(ags) and len(got) == len(ags) else ags
+                best = None
+                for w in cands:
+                    bad = [(f, w["fields"][f], g["fields"].get(f)) for f in w["fields"] if f in g["fields"] and "%s.%s" % (ow.rsplit("::", 1)[-1], f) not in skip
+                           and not _class_matches(w["fields"][f], g["fields"][f], ftys.get(f, ""))]
+                    if best is None or len(bad) < len(best):
+                        best = bad
+                for f in (cands[0]["fields"] if cands else {}):
+                    if f not in g["fields"]:
+                        continue
+                    b3 = [x for x in best if x[0] == f]
+                    if b3:
+                        o.fail("%s.%s|%s|initial-value" % (ow.rsplit("::", 1)[-1], f, fn), "%s.%s starts from a different value in %s: reviewed %s, now %s" % (
+                            ow.rsplit("::", 1)[-1], f, fn, json.dumps(b3[0][1]), json.dumps(b3[0][2])), g["span"])
+                    else:
+                        w0 = cands[0]["fields"][f]
+                        o.ok("%s.%s|%s" % (ow.rsplit("::", 1)[-1], f, fn), "%s.%s starts from %s" % (ow.rsplit("::", 1)[-1], f, json.dumps(w0)), g["span"], nontrivial=w0[0] != "complex")
+    return o
+
+
+# ------------------------------------------------------------------------------------ results are not thrown away
+def _local_uses(b):
+    """local -> number of reads (operands, places read or projected through); drops / storage markers do not count"""
+    u = b.__dict__.get("_uses")
+    if u is not None:
+        return u
+    u = {}
+
+    def pl(x):
+        u[x["l"]] = u.get(x["l"], 0) + 1
+        for pr in x.get("p", []):
+            if isinstance(pr, dict) and "l" in pr:
+                u[pr["l"]] = u.get(pr["l"], 0) + 1
+
+    def op(o):
+        if "c" in o:
+            pl(o["c"])
+        elif "m" in o:
+            pl(o["m"])
+
+    def rv(v):
+        for key in ("a", "b"):
+            if key in v and isinstance(v[key], dict):
+                op(v[key])
+        if "pl" in v:
+            pl(v["pl"])
+        for o in v.get("ops", []):
+            op(o)
+
+    for bl in b.blocks:
+        for s in bl["stmts"]:
+            if s["k"] == "assign":
+                rv(s["rv"])
+                if s["dst"]["p"]:
+                    pl(s["dst"])
+            elif s["k"] == "setdiscr":
+                pl(s["dst"])
+        t = bl["term"]
+        if t["k"] == "call":
+            for a in t["args"]:
+                op(a)
+            if isinstance(t.get("f"), dict):
+                op(t["f"])
+        elif t["k"] == "switch":
+            op(t["d"])
+        elif t["k"] == "assert":
+            for o in t["ops"]:
+                op(o)
+        elif t["k"] == "yield" and isinstance(t.get("v"), dict):
+            op(t["v"])
+    b.__dict__["_uses"] = u
+    return u
+
+
+_RESULT_TY = re.compile(r"^(core::result::|std::result::)?Result<")
+# reviewed: (root fn) -> (number of discarded results, reason)
+DISCARDED_RESULTS = {
+    "consensus::votor::Votor::set_timeouts": (2, "the spawned timer tasks send into the Votor's own timeout channel; a send error only means the Votor is gone (shutdown)"),
+}
+
+
+def discarded_results(b):
+    """[(local, type, term, span)] - values of type Result<..> (or the Option made from one by .ok()) that are produced and never looked at"""
+    out = []
+    u = _local_uses(b)
+    for l, ds in b.defs().items():
+        if l == 0 or l <= b.argc or not ds or u.get(l, 0):
+            continue
+        ty = b.local_ty(l)
+        t = b.local_term(l)
+        is_res = bool(_RESULT_TY.match(ty))
+        is_ok = ty.startswith("core::option::Option<") and isinstance(t, tuple) and t and t[0] == "call" and re.search(r"result::Result<.*>::(ok|err)$|Result::(ok|err)$", t[1])
+        if not (is_res or is_ok):
+            continue
+        d = ds[0][3]
+        out.append((l, ty, t, d.get("sp") or d.get("span") or b.span))
+    return out
+
+
+def ob_results_not_discarded(run, oid, prefixes, why):
+    """error discipline: no Result is produced and then dropped unread (`let _ = ..`, a bare `f();` on a Result, `.ok();`) outside the
+    reviewed sites. A Result that is matched, propagated with `?`, logged or returned is 'used'."""
+    prog = run.program("lib")
+    o = run.ob(oid, "no Result is thrown away unread (let _ = .. / .ok();) outside the reviewed sites", why, floor=1)
+    per = {}
+    n = 0
+    for d, b in prog.bodies.items():
+        if b.generated or not d.startswith("alpenglow::") or "::tests::" in d:
+            continue
+        sd = d[len("alpenglow::"):]
+        if not any(sd.startswith(p) for p in prefixes):
+            continue
+        n += 1
+        root = K.fshort(d.split("::{closure")[0])
+        for x in discarded_results(b):
+            per.setdefault(root, []).append(x)
+    for root, xs in sorted(per.items()):
+        cap, reason = DISCARDED_RESULTS.get(root, (0, ""))
+        for i, (l, ty, t, sp) in enumerate(xs):
+            if i < cap:
+                o.ok("%s|discarded|%d" % (root, i), "reviewed: %s" % reason, sp)
+            else:
+                o.fail("%s|discarded|%s" % (root, mir.show(t)[:50]), "the result of %s (%s) is thrown away unread in %s: a failure there goes unnoticed" % (mir.show(t)[:60], ty[:50], root), sp)
+    o.ok("scanned", "%d function bodies scanned for discarded results" % n, "", {"bodies": n}, nontrivial=n > 0)
+    if n == 0:
+        o.missing("modules " + ", ".join(prefixes))
+    return o
+
+
+# ------------------------------------------------------------------------------------ plain field copies
+def ob_field_copies(run, oid, fns, why, floor=None):
+    """functions that only re-package values (from_parts / header / deconstruct ..): every field of every crate struct they build is a
+    copy of the same-named field of an argument, or an argument itself - nothing is computed, defaulted or combined"""
+    prog = run.program("lib")
+    o = run.ob(oid, "re-packaging functions copy every field unchanged (same-named field of an argument, or the argument)", why, floor=floor or len(fns))
+    for fn in fns:
+        b = prog.body("alpenglow::" + fn)
+        if b is None:
+            o.missing(fn)
+            continue
+        n = 0
+        for (bb, rv, sp, dst) in b.aggregates():
+            if rv.get("ak") != "adt" or rv.get("is_enum") or not rv["adt"].startswith("alpenglow::"):
+                continue
+            for f, op in zip(rv["fields"], rv["ops"]):
+                t = K.peel(b.operand_term(op))
+                ok = False
+                if isinstance(t, tuple) and t:
+                    if t[0] == "param":
+                        ok = True
+                    elif t[0] == "field" and K.mentions(t, lambda y: isinstance(y, tuple) and y and y[0] == "param"):
+                        # a.b.c.<f>: a pure projection chain from a parameter ending in the same field name (tuple struct fields excepted)
+                        chain_ok = True
+                        x = t
+                        while isinstance(x, tuple) and x and x[0] in ("field", "variant"):
+                            x = K.peel(x[1])
+                        chain_ok = isinstance(x, tuple) and x and x[0] == "param"
+                        ok = chain_ok and (str(t[2]) == str(f) or str(f).isdigit() or str(t[2]).isdigit())
+                    elif t[0] == "agg" and t[1].startswith("alpenglow::"):
+                        ok = True       # a nested re-packaged struct: its own fields are checked as a separate aggregate
+                    elif t[0] == "call" and t[1].replace("alpenglow::", "") in fns:
+                        # delegates to another re-packaging function of the list, handing over (parts of) its own arguments
+                        ok = all(K.mentions(a, lambda y: isinstance(y, tuple) and y and y[0] == "param") for a in t[2])
+                n += 1
+                o.check(ok, "%s|%s.%s|copied" % (K.fshort("alpenglow::" + fn), rv["adt"].rsplit("::", 1)[-1], f), "%s.%s is the unchanged %s of an argument" % (rv["adt"].rsplit("::", 1)[-1], f, f), sp,
+                        {"value": mir.show(t)[:80]})
+            ex = extra_guards(prog, b, bb, [])
+            o.check(not ex, "%s|%s|unconditional" % (K.fshort("alpenglow::" + fn), rv["adt"].rsplit("::", 1)[-1]), "built under no condition", sp)
+        if n == 0:
+            o.missing("struct built in " + fn)
+    return o
